@@ -27,7 +27,10 @@ PoolSet == { Mk(w, i, d, t, th, dt, tg, cl, da) : w \in BOOLEAN, i \in BOOLEAN, 
 \* ... and the deprecated blocking-only modifiers, which the comparison must treat like any other modifier
 MiscSet == { [Mk(FALSE, i, d, 0, "none", FALSE, tg, FALSE, FALSE) EXCEPT !.misc = {m}] :
                  i \in BOOLEAN, d \in DomF, tg \in BOOLEAN, m \in {"empty", "mp4", "popup"} }
-Pool == SetToSeq(PoolSet \cup MiscSet)
+\* ... and rules with two negated modifiers (~third-party, ~match-case): each counts
+NegSet == { [Mk(w, i, d, 0, "off", FALSE, FALSE, FALSE, FALSE) EXCEPT !.mcase = mc] :
+                w \in BOOLEAN, i \in BOOLEAN, d \in DomF, mc \in {"none", "off", "on"} }
+Pool == SetToSeq(PoolSet \cup MiscSet \cup NegSet)
 N == Len(Pool)
 
 Rk == [i \in 1..N |-> Rank(Pool[i])]
